@@ -42,6 +42,9 @@ def sig(rec, clauses):
             s["tie"] = bool(bad) and bad == tie           # every failing row is a tie row
     if k in ("lift", "pw") and clauses and clauses[0] in ("blocklift-flags", "block-flags"):
         s["clause"] = "blocklift-flags"
+    # consequence of wrong block flags for the smoothed prolongation of a block problem
+    s["blockflags"] = s["clause"] == "blocklift-flags" or (
+        k == "sa" and s["bs"] > 1 and bool(clauses) and set(clauses) <= {"smoothed=formula", "rowsum-one"})
     return s
 
 
@@ -49,7 +52,7 @@ def what_of(rec, clauses, s):
     if s["coarsening"] == "ruge_stuben" and s.get("clause") == "rowsum" and s.get("tie"):
         return ("ruge_stuben truncation tie: an entry with a_ij == eps_trunc*min is dropped from P but not from the "
                 "rescaling, interpolation row does not sum to one on a symmetric zero-row-sum row")
-    if s["clause"] == "blocklift-flags" or (s["coarsening"] == "smoothed_aggregation" and s["bs"] > 1):
+    if s.get("blockflags"):
         return ("pointwise_aggregates (block_size>1) expands the strength flags against column (ip+1)*bs+k instead of the "
                 "diagonal: block coarsening != lifted scalar coarsening [%s, %s]" % (s["coarsening"], ",".join(clauses)))
     if s["coarsening"] == "ruge_stuben" and s.get("poison"):
@@ -218,7 +221,7 @@ def run(c):
         s["stage"] = label
         if s.get("tie"):
             seen["tie"] += 1
-        if s["clause"] == "blocklift-flags" or (s["coarsening"] == "smoothed_aggregation" and s["bs"] > 1):
+        if s.get("blockflags"):
             seen["lift"] += 1
         if s.get("poison"):
             seen["poison"] += 1
